@@ -55,11 +55,11 @@ const (
 // 4096 bytes) and for Reuse=true with different member names at the same nesting positions.
 var (
 	dBig       = "[\n\"" + strings.Repeat("a", 4200) + "\",\n{\"k\":\"" + strings.Repeat("b", 200) + "\"},\n7]" // valid, 2 buffers, 4 lines
-	dLateBad1  = "[\"" + strings.Repeat("a", 4200) + "\", 1, }"                                                   // rejected behind the first buffer, line 1
-	dLateBad3  = "[\"" + strings.Repeat("a", 4200) + "\",\n1,\n  }"                                               // rejected behind the first buffer, line 3
-	dLine1Bad  = `[1, }`                                                                                         // rejected on line 1
-	dLine3Bad  = "[1,\n 2,\n   }]"                                                                               // rejected on line 3
-	dReuse2    = `{"x":[1.5],"b":{"y":"z"},"d":{"r":{"s":2}},"f":[{"h":[]}]}`                                    // other members than dReuse at the same positions
+	dLateBad1  = "[\"" + strings.Repeat("a", 4200) + "\", 1, }"                                                 // rejected behind the first buffer, line 1
+	dLateBad3  = "[\"" + strings.Repeat("a", 4200) + "\",\n1,\n  }"                                             // rejected behind the first buffer, line 3
+	dLine1Bad  = `[1, }`                                                                                        // rejected on line 1
+	dLine3Bad  = "[1,\n 2,\n   }]"                                                                              // rejected on line 3
+	dReuse2    = `{"x":[1.5],"b":{"y":"z"},"d":{"r":{"s":2}},"f":[{"h":[]}]}`                                   // other members than dReuse at the same positions
 	dReuseMany = `{"a":1,"b":{"c":2}} {"x":{"y":1},"b":{"z":3}} {"b":{}}`
 )
 
@@ -199,19 +199,38 @@ func (po *parserOps) doc(name, doc string, reuse bool, args ...any) Kind {
 }
 
 func (po *parserOps) multi(name, doc, how string, panicAt int) Kind {
-	return Kind{Name: name, API: po.prefix + "Parse", Run: func(inst any) Out {
+	return po.multiX(name, doc, how, panicAt, false, false)
+}
+
+// multiX: multi-document call; reuse sets Reuse=true (the delivered maps are then recycled from one document
+// to the next, as documented - the same happens on a fresh instance); viaReader goes through ParseReader.
+func (po *parserOps) multiX(name, doc, how string, panicAt int, reuse, viaReader bool) Kind {
+	api, ex := "Parse", ""
+	if viaReader {
+		api = "ParseReader"
+	}
+	if reuse {
+		ex = "reuse"
+	}
+	return Kind{Name: name, API: po.prefix + api, Exempt: ex, Run: func(inst any) Out {
 		if po.setReuse != nil {
-			po.setReuse(inst, false)
+			po.setReuse(inst, reuse)
 		}
 		b := []byte(doc)
 		sink := []any{}
 		var v any
 		var err error
+		call := func(cb any) (any, error) {
+			if viaReader {
+				return po.read(inst, bytes.NewReader(b), cb)
+			}
+			return po.parse(inst, b, cb)
+		}
 		switch how {
 		case "cbbool":
-			v, err = po.callWithSink(inst, b, &sink, po.cb(&sink, panicAt))
+			v, err = call(po.cb(&sink, panicAt))
 		case "cb":
-			v, err = po.callWithSink(inst, b, &sink, po.cbPlain(&sink))
+			v, err = call(po.cbPlain(&sink))
 		case "chan":
 			if po.genCB {
 				ch := make(chan gen.Node, 64)
@@ -231,10 +250,6 @@ func (po *parserOps) multi(name, doc, how string, panicAt int) Kind {
 		}
 		return Out{Res: parseRes(v, err, &sink), View: func() any { return held(v, err, &sink) }, Scribble: scribbler(b)}
 	}}
-}
-
-func (po *parserOps) callWithSink(inst any, b []byte, sink *[]any, cb any) (any, error) {
-	return po.parse(inst, b, cb)
 }
 
 func (po *parserOps) reader(name string, mk func(b []byte) io.Reader, doc string, args ...any) Kind {
@@ -264,68 +279,110 @@ func whole(b []byte) io.Reader  { return bytes.NewReader(b) }
 func by3(b []byte) io.Reader    { return &chunkReader{b: b, n: 3} }
 func failer(b []byte) io.Reader { return &failReader{data: b} }
 
+// readerKinds: the reader-based calls every parser family gets (position bookkeeping across buffers and calls).
+func (po *parserOps) readerKinds() (first, rest []Kind) {
+	first = []Kind{
+		po.reader("reader_big_ok", whole, dBig),
+		po.reader("reader_late_bad", whole, dLateBad1),
+		po.reader("reader_bad_line1", whole, dLine1Bad),
+		po.reader("reader_bad_line3", whole, dLine3Bad),
+	}
+	rest = []Kind{
+		po.reader("reader_small_ok", whole, dValid),
+		po.reader("reader_late_bad_line3", whole, dLateBad3),
+		po.multiX("reader_cb_panic", dMulti, "cbbool", 2, false, true),
+		po.doc("big_ok", dBig, false),
+	}
+	return
+}
+
+// The menus list the kinds that touch most per-instance state first: the quick tier enumerates all
+// triples over the first 20 kinds (and all pairs over the whole menu), the thorough tier all quadruples over
+// the first 16 (and all triples over the whole menu).
 func (po *parserOps) jsonMenu() []Kind {
+	rfirst, rrest := po.readerKinds()
 	ks := []Kind{
 		po.doc("valid", dValid, false),
+		po.doc("bad_nested", dBadNest, false),
+		po.doc("truncated", dTrunc, false),
+		po.doc("bad_line3", dLine3Bad, false),
+		po.doc("escapes", dEsc, false),
+		po.multi("multi_cb", dMulti, "cbbool", 0),
+		po.multi("cb_panic", dMulti, "cbbool", 2),
+		po.doc("reuse_maps", dReuse, true),
+		po.doc("reuse_maps2", dReuse2, true),
+		po.doc("nums", dNums, false),
+	}
+	ks = append(ks, rfirst...)
+	ks = append(ks,
+		po.reader("reader_fail", failer, `{"a":[1,2,`),
+		po.reader("reader_by3", by3, dEsc),
+		po.doc("bad_key", dBadKey, false),
+		po.multi("multi_chan", dMulti, "chan", 0),
+	)
+	if po.conv {
+		ks = append(ks, po.doc("conv_float", dNums, false, ojg.NumConvFloat64))
+	}
+	if po.unmarshal != nil {
+		ks = append(ks, po.unm("unmarshal", dUnm))
+	}
+	// ---- beyond the first 20
+	ks = append(ks,
 		po.doc("bad_string", dBadStr, false),
 		po.doc("bad_number", dBadNum, false),
 		po.doc("bad_literal", dBadLit, false),
-		po.doc("bad_key", dBadKey, false),
-		po.doc("bad_nested", dBadNest, false),
-		po.doc("truncated", dTrunc, false),
-		po.doc("escapes", dEsc, false),
-		po.multi("multi_cb", dMulti, "cbbool", 0),
-		po.multi("multi_chan", dMulti, "chan", 0),
-		po.multi("cb_panic", dMulti, "cbbool", 2),
-		po.doc("reuse_maps", dReuse, true),
-		po.doc("nums", dNums, false),
-		po.reader("reader_fail", failer, `{"a":[1,2,`),
-		po.reader("reader_by3", by3, dEsc),
+		po.doc("bad_line1", dLine1Bad, false),
 		po.doc("bad_opt", dValid, false, 3.14),
-	}
+		po.doc("top_number", dTopNum, false),
+		po.multi("multi_plaincb", dMulti, "cb", 0),
+		po.multiX("reuse_multi", dReuseMany, "cbbool", 0, true, false),
+	)
 	if po.conv {
-		ks = append(ks,
-			po.doc("conv_float", dNums, false, ojg.NumConvFloat64),
-			po.doc("conv_string", dNums, false, ojg.NumConvString))
+		ks = append(ks, po.doc("conv_string", dNums, false, ojg.NumConvString))
 	}
-	if po.unmarshal != nil {
-		ks = append(ks, po.unm("unmarshal", dUnm))
-	}
-	ks = append(ks, po.doc("top_number", dTopNum, false), po.multi("multi_plaincb", dMulti, "cb", 0))
-	return ks
+	return append(ks, rrest...)
 }
 
 func (po *parserOps) senMenu() []Kind {
+	rfirst, rrest := po.readerKinds()
 	ks := []Kind{
 		po.doc("valid", dValid, false),
 		po.doc("plus_pending", dSenPlusP, false),
-		po.doc("plus_pending_top", dSenPlusT, false),
 		po.doc("plus_pending_obj", dSenPlusO, false),
 		po.doc("plus_ok", dSenPlus, false),
 		po.doc("string_top", dSenStr, false),
+		po.doc("bad_nested", dBadNest, false),
+		po.doc("truncated", dTrunc, false),
+		po.doc("bad_line3", dLine3Bad, false),
+		po.doc("escapes", dEsc, false),
+		po.multi("multi_cb", dMulti, "cbbool", 0),
+		po.multi("cb_panic", dMulti, "cbbool", 2),
+		po.doc("reuse_maps", dReuse, true),
+		po.doc("reuse_maps2", dReuse2, true),
+		po.doc("conv_float", dNums, false, ojg.NumConvFloat64),
+	}
+	ks = append(ks, rfirst...)
+	ks = append(ks,
+		po.reader("reader_fail", failer, `{a:[1 2 `),
+		po.doc("squote", dSenSq, false),
+		// ---- beyond the first 20
+		po.doc("plus_pending_top", dSenPlusT, false),
 		po.doc("comment_unterminated", dSenCmt, false),
 		po.doc("token_func", dSenFunc, false),
-		po.doc("squote", dSenSq, false),
 		po.doc("bare", dSenBare, false),
 		po.doc("bad_string", dBadStr, false),
 		po.doc("bad_number", dBadNum, false),
-		po.doc("bad_nested", dBadNest, false),
-		po.doc("truncated", dTrunc, false),
-		po.doc("escapes", dEsc, false),
-		po.multi("multi_cb", dMulti, "cbbool", 0),
+		po.doc("bad_line1", dLine1Bad, false),
 		po.multi("multi_chan", dMulti, "chan", 0),
-		po.multi("cb_panic", dMulti, "cbbool", 2),
-		po.doc("reuse_maps", dReuse, true),
-		po.doc("conv_float", dNums, false, ojg.NumConvFloat64),
 		po.doc("conv_string", dNums, false, ojg.NumConvString),
-		po.reader("reader_fail", failer, `{a:[1 2 `),
 		po.reader("reader_by3", by3, dSenSq),
 		po.doc("bad_opt", dValid, false, 3.14),
-	}
+		po.multiX("reuse_multi", dReuseMany, "cbbool", 0, true, false),
+	)
 	if po.unmarshal != nil {
 		ks = append(ks, po.unm("unmarshal", dUnm))
 	}
-	return ks
+	return append(ks, rrest...)
 }
 
 // ---------------------------------------------------------------- validators / tokenizers
@@ -354,13 +411,18 @@ func validatorMenu() []Kind {
 		}}
 	}
 	return []Kind{
-		val("valid", dValid, true), val("bad_string", dBadStr, true), val("bad_number", dBadNum, true),
-		val("bad_literal", dBadLit, true), val("bad_key", dBadKey, true), val("bad_nested", dBadNest, true),
-		val("truncated", dTrunc, true), val("escapes", dEsc, true), val("multi_onlyone", dMulti, true),
-		val("multi_many", dMulti, false), val("deep", dDeep, true), val("nums", dNums, true),
-		val("bom", "\xef\xbb\xbf[1,2]", true), val("bad_bom", "\xef\xbbx[1]", true),
+		val("valid", dValid, true), val("bad_nested", dBadNest, true), val("truncated", dTrunc, true),
+		val("bad_line3", dLine3Bad, true), val("escapes", dEsc, true), val("multi_onlyone", dMulti, true),
+		val("multi_many", dMulti, false), val("deep", dDeep, true),
+		rd("reader_big_ok", whole, dBig, true), rd("reader_late_bad", whole, dLateBad1, true),
+		rd("reader_bad_line1", whole, dLine1Bad, true), rd("reader_bad_line3", whole, dLine3Bad, true),
 		rd("reader_fail", failer, `{"a":[1,2,`, true), rd("reader_by3", by3, dEsc, true), rd("reader_many", whole, dMulti, false),
-		val("top_number", dTopNum, true),
+		val("bad_key", dBadKey, true), val("bom", "\xef\xbb\xbf[1,2]", true), val("bad_bom", "\xef\xbbx[1]", true),
+		val("nums", dNums, true), val("bad_line1", dLine1Bad, true),
+		// ---- beyond the first 20
+		val("bad_string", dBadStr, true), val("bad_number", dBadNum, true), val("bad_literal", dBadLit, true),
+		val("top_number", dTopNum, true), val("big_ok", dBig, true),
+		rd("reader_small_ok", whole, dValid, true), rd("reader_late_bad_line3", whole, dLateBad3, true),
 	}
 }
 
@@ -420,24 +482,47 @@ func (to *tokOps) menu(senDocs bool) []Kind {
 			return Out{Res: res, View: h.snapshot(), Scribble: scribbler(b)}
 		}}
 	}
-	ld := func(name string, mk func([]byte) io.Reader, doc string, onlyOne bool) Kind {
+	ldp := func(name string, mk func([]byte) io.Reader, doc string, onlyOne bool, panicAt int) Kind {
 		return Kind{Name: name, API: to.prefix + "Load", Run: func(inst any) Out {
-			h := &recHandler{}
-			err := to.load(inst, onlyOne, mk([]byte(doc)), h)
-			return Out{Res: errRes(err, h.view()), View: h.snapshot()}
+			h := &recHandler{panicAt: panicAt}
+			var err error
+			cls := ""
+			func() {
+				defer func() {
+					if r := recover(); r != nil {
+						cls = "panic"
+					}
+				}()
+				err = to.load(inst, onlyOne, mk([]byte(doc)), h)
+			}()
+			res := errRes(err, h.view())
+			if cls != "" {
+				res["c"] = cls
+			}
+			return Out{Res: res, View: h.snapshot()}
 		}}
 	}
+	ld := func(name string, mk func([]byte) io.Reader, doc string, onlyOne bool) Kind {
+		return ldp(name, mk, doc, onlyOne, 0)
+	}
 	ks := []Kind{
-		tk("valid", dValid, true, 0), tk("bad_string", dBadStr, true, 0), tk("bad_number", dBadNum, true, 0),
-		tk("bad_literal", dBadLit, true, 0), tk("bad_key", dBadKey, true, 0), tk("bad_nested", dBadNest, true, 0),
-		tk("truncated", dTrunc, true, 0), tk("escapes", dEsc, true, 0), tk("multi_onlyone", dMulti, true, 0),
+		tk("valid", dValid, true, 0), tk("bad_key", dBadKey, true, 0), tk("bad_nested", dBadNest, true, 0),
+		tk("truncated", dTrunc, true, 0), tk("bad_line3", dLine3Bad, true, 0), tk("escapes", dEsc, true, 0),
 		tk("multi_many", dMulti, false, 0), tk("handler_panic", dValid, true, 4), tk("handler_panic_key", dReuse, true, 2),
-		tk("nums", dNums, true, 0), tk("top_number", dTopNum, true, 0),
+		tk("nums", dNums, true, 0),
+		ld("load_big_ok", whole, dBig, true), ld("load_late_bad", whole, dLateBad1, true),
+		ld("load_bad_line1", whole, dLine1Bad, true), ld("load_bad_line3", whole, dLine3Bad, true),
 		ld("load_fail", failer, `{"a":[1,2,`, true), ld("load_by3", by3, dEsc, true),
+		ldp("load_handler_panic", whole, dReuse, true, 5),
+		// ---- beyond the first 20 (the SEN tokenizer's own kinds are inserted here)
+		tk("bad_string", dBadStr, true, 0), tk("bad_number", dBadNum, true, 0), tk("bad_literal", dBadLit, true, 0),
+		tk("bad_line1", dLine1Bad, true, 0), tk("multi_onlyone", dMulti, true, 0), tk("top_number", dTopNum, true, 0),
+		ld("load_small_ok", whole, dValid, true), ld("load_late_bad_line3", whole, dLateBad3, true), ld("load_many", whole, dMulti, false),
 	}
 	if senDocs {
-		ks = append(ks, tk("bare", dSenBare, true, 0), tk("squote", dSenSq, true, 0), tk("comment_unterminated", dSenCmt, true, 0),
-			tk("line_comment", dSenLine, true, 0), tk("bare_key_trunc", `{a:1 b`, true, 0), tk("key_panic", dSenBare, true, 2))
+		own := []Kind{tk("bare_key_trunc", `{a:1 b`, true, 0), tk("key_panic", dSenBare, true, 2), tk("bare", dSenBare, true, 0),
+			tk("squote", dSenSq, true, 0), tk("comment_unterminated", dSenCmt, true, 0), tk("line_comment", dSenLine, true, 0)}
+		ks = append(ks[:17:17], append(own, ks[17:]...)...) // the first three of them fall inside the first 20
 	}
 	return ks
 }
@@ -647,7 +732,7 @@ func ojPoolParsers() []Kind {
 	ks := po.jsonMenu()
 	out := []Kind{}
 	for _, k := range ks {
-		if k.Name == "reuse_maps" { // Reuse cannot be set through the package-level functions
+		if strings.HasPrefix(k.Name, "reuse_") { // Reuse cannot be set through the package-level functions
 			continue
 		}
 		if k.API == "oj.ParseReader" {
@@ -673,7 +758,7 @@ func senPoolParsers() []Kind {
 	}
 	out := []Kind{}
 	for _, k := range po.senMenu() {
-		if k.Name == "reuse_maps" {
+		if strings.HasPrefix(k.Name, "reuse_") {
 			continue
 		}
 		out = append(out, k)
